@@ -166,15 +166,41 @@ def r8_map_summaries(rep, facts, rid='C16/R9'):
                 want = ref(q)
                 rep.check(R, f'{short}::{meth}|{q}', got == want, f'{got}',
                           f'`{d}` with the key `{q}`' + (' (a placeholder left by mutable indexing)' if q == 'ghost' else '') + f' {got}; a plain ordered map holding a, b, c {want}', facts.loc(b))
-        # the entry API
-        d = f'{ty}::entry'
-        if facts.has_body(d):
+        # assignment through the index operator (`table["q"] = v`, `item["q"] = v`): <str as Index>::index_mut hands out the slot, the caller stores into it
+        dix = '<str as toml_edit::index::Index>::index_mut'
+        if facts.has_body(dix):
+            b = facts.body(dix)
+            for q in ('a', 'ghost', 'b', 'c', 'new'):
+                model = fresh()
+                holder = ('ctor', I + 'Value', (('ctor', V + 'InlineTable', (model,)),)) if inline else ('ctor', I + 'Table', (model,))
+                it = PlaceInterp(Evaluator(facts), {'fmt'})
+                try:
+                    r = it.apply_fn(b, [q, holder])
+                    slot = unopt(r)
+                    from .places import SlotRef
+                    if not isinstance(slot, SlotRef):
+                        raise Unanalysable('index_mut does not hand out a slot the evaluator can write through')
+                    slot.set(('ctor', I + 'Value', (fval(NEW),)))
+                    got = Outcome(None, _visible(model))
+                except EvalPanic as ex:
+                    rep.bad(R, f'{short}::index_mut|{q}', f'`{dix}` on a {short} panics for the key `{q}`: {ex}', facts.loc(b))
+                    continue
+                except (Unanalysable, TypeError, IndexError, KeyError, AttributeError) as ex:
+                    rep.incomplete(R, f'{short}::index_mut|{q}', f'cannot evaluate `{dix}` on a {short} for the key `{q}`: {ex}', facts.loc(b))
+                    continue
+                want = Outcome(None, ref_insert(q).state)
+                rep.check(R, f'{short}::index_mut|{q}', got == want, f'{got}',
+                          f'`{short.lower()}["{q}"] = NEW`' + (' (a placeholder left by mutable indexing)' if q == 'ghost' else '') + f' {got}; a plain ordered map holding a, b, c {want}', facts.loc(b))
+        # the entry API (by name, and by an already formatted key)
+        for d, mkq in ((f'{ty}::entry', lambda q: q), (f'{ty}::entry_format', lambda q: key(q))):
+          if facts.has_body(d):
             b = facts.body(d)
+            lab = last_seg(d)
             for q in ('a', 'ghost', 'b', 'c', 'new'):
                 model = fresh()
                 it = PlaceInterp(Evaluator(facts), {'fmt'})
                 try:
-                    ent = it.apply_fn(b, [model, q])
+                    ent = it.apply_fn(b, [model, mkq(q)])
                     kind = last_seg(deref(ent)[1]) if isinstance(deref(ent), tuple) and len(deref(ent)) > 1 else '?'
                     orins = None
                     for imp in facts.impls:
@@ -188,14 +214,14 @@ def r8_map_summaries(rep, facts, rid='C16/R9'):
                     r = it.apply_fn(facts.body(dd), [ent, new_arg()])
                     got = Outcome((kind, tv(r)), _visible(model))
                 except EvalPanic as ex:
-                    rep.bad(R, f'{short}::entry|{q}', f'`{d}(..).or_insert(..)` panics for the key `{q}`: {ex}', facts.loc(b))
+                    rep.bad(R, f'{short}::{lab}|{q}', f'`{d}(..).or_insert(..)` panics for the key `{q}`: {ex}', facts.loc(b))
                     continue
                 except (Unanalysable, TypeError, IndexError, KeyError) as ex:
-                    rep.incomplete(R, f'{short}::entry|{q}', f'cannot evaluate `{d}(..).or_insert(..)` for the key `{q}`: {ex}', facts.loc(b))
+                    rep.incomplete(R, f'{short}::{lab}|{q}', f'cannot evaluate `{d}(..).or_insert(..)` for the key `{q}`: {ex}', facts.loc(b))
                     continue
                 w = ref_or_insert(q)
                 want = Outcome(('Occupied' if any(k == q for k, _ in ref0) else 'Vacant', w.ret), w.state)
-                rep.check(R, f'{short}::entry|{q}', got == want, f'{got}',
+                rep.check(R, f'{short}::{lab}|{q}', got == want, f'{got}',
                           f'`{d}("{q}").or_insert(NEW)`' + (' (a placeholder left by mutable indexing)' if q == 'ghost' else '') + f' {got}; a plain ordered map holding a, b, c {want}', facts.loc(b))
         # whole-container operations
         for meth, args, want in (('clear', lambda it: [], []), ('retain', lambda it: [('pyfn', lambda k, v: keyname(k) != 'a')],
